@@ -585,6 +585,21 @@ mut('c19-nargs-by-length', ['C19'], IF,
 mut('ok-c19-int-range-constants', ['C19'], M,
     [("        if -2**31 <= pobj < 2**31:\n            return 'i'\n        return 'x'", "        if -2147483648 <= pobj <= 2147483647:\n            return 'i'\n        else:\n            return 'x'")], kind='benign')
 
+twin('c06-prefix-external-str-challenge', ['C06'], '4ab60c8', ['C06.D6'], 'pre-fix twin')
+twin('c06-prefix-cookie-str-response', ['C06'], 'c43b434', ['C06.D6'], 'pre-fix twin')
+twin('c11-prefix-bus-parse-arity', ['C11', 'C14'], 'abc19f2', ['C11.D1', 'C14.D1'], 'pre-fix twin')
+mut('c11-proxy-sigout-as-signature', ['C11'], OB,
+    [("            signature=m.sigIn,\n            body=args,", "            signature=m.sigOut,\n            body=args,")], ['C11.D2'])
+mut('c11-proxy-no-count-check', ['C11'], OB,
+    [("        if len(args) != m.nargs:\n            raise TypeError(\n                '%s.%s takes %d arguments (%d given)' %\n                (i.name, methodName, m.nargs, len(args)),\n            )\n", "")], ['C11.D2'])
+mut('c11-proxy-wrong-destination', ['C11'], OB,
+    [("            destination=self.busName,\n            signature=m.sigIn,", "            destination=self.objectPath,\n            signature=m.sigIn,")], ['C11.D2'])
+mut('c11-callremote-extra-kw', ['C11'], CL,
+    [("                autoStart=autoStart,\n                oobFDs=[],", "                autoStart=autoStart,\n                timeout=timeout,\n                oobFDs=[],")], ['C11.D1'])
+mut('c11-explicit-interfaces-names', ['C11'], OB,
+    [("                    if i in interface.DBusInterface.knownInterfaces:\n                        ifl.append(interface.DBusInterface.knownInterfaces[i])", "                    if i in interface.DBusInterface.knownInterfaces:\n                        ifl.append(i)")], ['C11.D3'],
+    note='proxy gets interface NAMES instead of DBusInterface objects')
+
 # benign variants --------------------------------------------------------------
 mut('ok-int16-condexpr', ['C01', 'C02'], M,
     [("return 2, [struct.pack(lendian and '<h' or '>h', var)]",
